@@ -5,7 +5,8 @@ CONSTANTS NP = 1
           Devs = {}
           MCLimits = {2}
           MCMsgLen = 1
-          MCNCfg = 3
+          MCNCfg = 2
+          MCKindSel = "two"
           MCIgnored = {}
           MCBig = {2}
           Cfgs <- MCCfgs
